@@ -2,8 +2,8 @@
 (* C59, I-layer: EventScheduler as it is today (src/event.cc) and EventLoop::runOnce (src/EventLoop.cc).
    tasks = the singly linked list, sorted by `when`; when = 0 for a delay <= 0, else clock + delay; schedule() inserts
    behind the last entry with when <= the new one; cancel(f, a) unlinks the first match; cancel(f, none) walks the
-   list, unlinks matches, but steps over the entry that follows an unlinked one (CancelAllWalk: the deliberate-looking
-   early `break` comment in the code is about exactly this loop; the skipped entry stays scheduled: deviation from P);
+   list and unlinks every match, re-examining the slot after each unlink (CancelAllWalk; before the repair of 253d745 the
+   walk stepped over the entry following an unlinked one, which stayed scheduled - CancelAllDeviates is now never true);
    checkEvents() pops due entries from the head until one with a non-zero weight was popped; timeRemaining() is the
    head's distance in milliseconds, rounded up, at least 1, EVENT_IDLE (-1) when empty (den = clock ticks per second). *)
 EXTENDS Integers, Sequences, FiniteSets
@@ -21,7 +21,7 @@ Insert(ts, e) == LET p == InsertPos(ts, e.when) IN SubSeq(ts, 1, p - 1) \o <<e>>
 FirstMatch(ts, f, a) == LET m == {i \in DOMAIN ts : ts[i].f = f /\ ts[i].a = a} IN IF m = {} THEN 0 ELSE CHOOSE i \in m : \A j \in m : i <= j
 RECURSIVE CancelAllWalk(_, _, _)
 CancelAllWalk(ts, i, f) == IF i > Len(ts) THEN ts
-                           ELSE IF ts[i].f = f THEN LET ts2 == Remove(ts, i) IN IF i > Len(ts2) THEN ts2 ELSE CancelAllWalk(ts2, i + 1, f)
+                           ELSE IF ts[i].f = f THEN CancelAllWalk(Remove(ts, i), i, f)
                            ELSE CancelAllWalk(ts, i + 1, f)
 CeilDiv(x, y) == (x + y - 1) \div y
 TimeRemaining(ts, t, den) == IF ts = <<>> THEN -1 ELSE IF ts[1].when <= t THEN 0
